@@ -461,6 +461,41 @@ func keyFromRangeOver(key ssa.Value, m ssa.Value) bool {
 			}
 		}
 	})
+	// or the keys come from a helper called on the same environment that ranges over its own store
+	if !hasRange {
+		var src ssa.Value = ia.X
+		for i := 0; i < 3; i++ {
+			if ph, ok := src.(*ssa.Phi); ok && len(ph.Edges) > 0 {
+				src = ph.Edges[0]
+			}
+		}
+		if hc, ok := src.(*ssa.Call); ok {
+			if callee := hc.Common().StaticCallee(); callee != nil && isModuleSSA(callee) && len(callee.Params) > 0 && len(hc.Common().Args) > 0 {
+				// same owner: the map is owner.store and the helper's receiver is that owner
+				var owner ssa.Value
+				if mld, ok := m.(*ssa.UnOp); ok {
+					if fa, ok := mld.X.(*ssa.FieldAddr); ok {
+						owner = fa.X
+					}
+				}
+				if owner != nil && sameValue(hc.Common().Args[0], owner) {
+					eachInstr(callee, func(in ssa.Instruction) {
+						if rg, ok := in.(*ssa.Range); ok {
+							if rld, ok := rg.X.(*ssa.UnOp); ok {
+								if fa, ok := rld.X.(*ssa.FieldAddr); ok && fa.X == ssa.Value(callee.Params[0]) {
+									if mld, ok := m.(*ssa.UnOp); ok {
+										if mfa, ok := mld.X.(*ssa.FieldAddr); ok && mfa.Field == fa.Field {
+											hasRange = true
+										}
+									}
+								}
+							}
+						}
+					})
+				}
+			}
+		}
+	}
 	// and no delete in this function
 	noDelete := true
 	eachInstr(fn, func(in ssa.Instruction) {
